@@ -288,6 +288,13 @@ def _role_candidates(role, fn, loop):
                     for a, b in ((l, r), (r, l)):
                         if isinstance(a, ast.Name) and a.id == t and isinstance(b, ast.Constant) and b.value == role[1]:
                             out.add(t)
+    elif kind == 'appended' and loop is not None:
+        # ('appended',)  the local list the loop body appends to:  x.append(...)
+        for st in loop.body:
+            for n in ast.walk(st):
+                if isinstance(n, ast.Call) and isinstance(n.func, ast.Attribute) and n.func.attr == 'append' \
+                        and isinstance(n.func.value, ast.Name):
+                    out.add(n.func.value.id)
     elif kind == 'while_names' and isinstance(loop, ast.While):
         out = _names_in(loop.test)
     elif kind == 'while_lhs' and isinstance(loop, ast.While):
@@ -620,7 +627,7 @@ class Engine:
 
     def fresh_bytes(self, name, minlen=0, maxlen=None):
         nm = self.path.fresh_name(name)
-        n = z3.Int(nm + '.len')
+        n = z3.Int(self.path.fresh_name(nm + '.len'))
         self.path.add(n >= minlen)
         if maxlen is not None:
             self.path.add(n <= maxlen)
